@@ -8,10 +8,11 @@ Not decided: equality of the evaluated command lines.
 """
 import ast
 
+from ..facts import (Facts, direct, has, has_call, has_const, param_of)
 from ..index import AnalysisError, unparse, walk_no_nested
 from .. import query as Q
 from ..rules import graph as G
-from . import c03
+from . import c03, c07
 
 COMPDB_EXEMPT = {
     'bfg9000.builtins.alias:Alias': 'no command',
@@ -21,19 +22,38 @@ COMPDB_EXEMPT = {
 }
 
 
-def _cmd_kwargs_keys(fn_node):
-    keys = set()
-    for n in ast.walk(fn_node):
-        if isinstance(n, ast.Assign):
-            for t in n.targets:
-                if isinstance(t, ast.Subscript) and unparse(
-                        t.value) == 'cmd_kwargs' and isinstance(
-                            t.slice, ast.Constant):
-                    keys.add(t.slice.value)
-                elif isinstance(t, ast.Tuple):
-                    pass
-            # chained: cmd_kwargs['deps'] = deps = ...
-    return keys
+def _facts(ctx):
+    f = getattr(ctx, '_facts', None)
+    if f is None:
+        f = ctx._facts = Facts(ctx.repo)
+    return f
+
+
+def _tool_calls(F, h, tool):
+    """The `<rule>.compiler(...)` / `<rule>.linker(...)` calls of a
+    handler."""
+    p = Q.params(h.node)[0]
+    return [e for e in F.effects(h, lambda e: True, depth=1)
+            if any(x == '{}.{}'.format(p, tool) for x in e.heads())]
+
+
+def _kw_record(F, e):
+    """Constant keyword names a tool call receives (explicit keywords and
+    the keys of a **mapping built by the handler or its helper)."""
+    keys, rec = set(), {}
+    for k in e.call.keywords:
+        if k.arg is not None:
+            keys.add(k.arg)
+            rec.setdefault(k.arg, set()).update(
+                F.atoms(k.value, e.fn, e.bind))
+        else:
+            r = F.flow.record(k.value, e.fn, e.bind)
+            for kk in (r or {}):
+                if kk != '*':
+                    keys.add(kk)
+                    rec.setdefault(kk, set()).update(
+                        F.flow.rec_atoms(r, kk))
+    return keys, rec
 
 
 def sibling(ctx):
@@ -41,12 +61,14 @@ def sibling(ctx):
     ctx.rule(R, 'the make, ninja and compdb emitters of one edge class '
              'agree: same registrations (compdb minus reasoned exemptions), '
              'same dependency roots, same tool-call keywords, same flag '
-             'components through the shared _get_flags, same input '
-             'transformation, same command/environment expression')
+             'components, same input transformation, same command/'
+             'environment expression (all as value-flow facts)')
     repo = ctx.repo
+    F = _facts(ctx)
     reg = G.Registry(repo)
     mk, nj, cd = (set(reg.handlers[b]) for b in ('make', 'ninja', 'compdb'))
-    ctx.require_min(R, len(mk), 11, 'make handlers')
+    ctx.ob(R, 'make-handlers|found', len(mk) >= 8, None,
+           'only {} make handlers found'.format(len(mk)))
     for c in sorted(mk | nj):
         ctx.ob(R, 'registered|make=ninja|' + c, c in mk and c in nj, None,
                '{} is handled by {} only'.format(
@@ -63,183 +85,217 @@ def sibling(ctx):
         ctx.ob(R, 'registered|compdb-extra|' + c, False, None,
                'compdb handles {} which make does not'.format(c))
 
-    # dependency roots: make vs ninja, per edge class
     for c in sorted(mk & nj):
         hm, hn = reg.handlers['make'][c], reg.handlers['ninja'][c]
-        rm = _dep_roots(hm)
-        rn = _dep_roots(hn)
+        rm = _dep_roots(F, hm)
+        rn = _dep_roots(F, hn)
         req = set(c03.REQUIRED.get(c, {}))
-        ctx.ob(R, 'dep-roots|' + c, (rm & req) == (rn & req), hm.node,
+        # conditions: where both handlers add an attribute in their own
+        # body, they must agree on whether that is unconditional
+        am, cm = _old_roots(hm)
+        an, cn = _old_roots(hn)
+        shared = am & an & req
+        same_cond = (cm & shared) == (cn & shared)
+        ctx.ob(R, 'dep-roots|' + c, (rm & req) == (rn & req) and same_cond,
+               hm.node,
                'make and ninja handlers of {} depend on different consumed '
                'attributes: make {} / ninja {}'.format(
                    c.split(':')[1], sorted(rm & req), sorted(rn & req)))
 
-    # shared flag computation
     for mod, tool in (('bfg9000.builtins.compile', 'compiler'),
                       ('bfg9000.builtins.link', 'linker')):
-        gf = repo.func(mod + ':_get_flags')
-        for b in ('make', 'ninja'):
+        per, comps = {}, {}
+        for b in ('make', 'ninja', 'compdb'):
             hs = {h.fq: h for c, h in reg.handlers[b].items()
                   if h.module.name == mod}
             for h in hs.values():
-                calls = [x for x in Q.calls(h.node) if unparse(x.func) ==
-                         '_get_flags']
-                ok = len(calls) == 1 and [unparse(a) for a in calls[0].args] \
-                    == [b, 'rule', 'build_inputs', 'buildfile']
-                ctx.ob(R, 'shared-_get_flags|' + h.fq, ok, h.node,
-                       '{} does not compute its flags through the shared '
-                       '_get_flags({}, rule, build_inputs, buildfile)'
-                       .format(h.qualname, b))
-                # the tool call receives **cmd_kwargs
-                tc = [x for x in Q.calls(h.node) if unparse(x.func) == tool]
-                ok = bool(tc) and all(any(
-                    k.arg is None and unparse(k.value) == 'cmd_kwargs'
-                    for k in x.keywords) for x in tc)
-                ctx.ob(R, 'tool-call-gets-cmd_kwargs|' + h.fq, ok, h.node,
-                       'the {}(...) call does not receive **cmd_kwargs'
-                       .format(tool))
-        # keyword sets
-        keys_shared = _cmd_kwargs_keys(gf.node)
-        per = {}
-        for b in ('make', 'ninja', 'compdb'):
-            for c, h in reg.handlers[b].items():
-                if h.module.name != mod:
-                    continue
-                k = _cmd_kwargs_keys(h.node)
+                tcs = _tool_calls(F, h, tool)
+                ctx.ob(R, 'tool-call|' + h.fq, bool(tcs), h.node,
+                       '{} does not call rule.{}(...)'.format(
+                           h.qualname, tool))
+                at = set()
+                for e in tcs:
+                    keys, rec = _kw_record(F, e)
+                    per.setdefault(b, set()).update(keys)
+                    for k in ('flags', 'libs'):
+                        at |= rec.get(k, set())
                 if b != 'compdb':
-                    k |= keys_shared
-                per.setdefault(b, set()).update(k)
+                    gf = F.calls_to(h, '_get_flags', depth=1)
+                    ok = bool(gf) and all(
+                        any(x == b for x in direct(e.arg(0))) and
+                        param_of(e.arg(1), Q.params(h.node)[0])
+                        for e in gf)
+                    ctx.ob(R, 'shared-_get_flags|' + h.fq, ok, h.node,
+                           '{} does not compute its flags through the '
+                           'shared _get_flags({}, rule, ...)'.format(
+                               h.qualname, b))
+                    # the variables the flags kw names are filled from
+                    for e in F.effects(h, lambda e: e.name == 'flags_vars',
+                                       depth=2):
+                        at |= e.arg(1)
+                    for g_ in F.reach(h, 1):
+                        if g_.node.name != '_get_flags':
+                            continue
+                        for t, v, n in F.stores(g_):
+                            at |= v
+                comps.setdefault(b, set())
+                want = [('global_flags', lambda a: has(a, tool,
+                                                       'global_flags') or
+                         has(a, 'global_flags')),
+                        ('tool.flags(mode=global)', lambda a: any(
+                            ".flags(~, mode='global')" in x for x in a)),
+                        ('rule.flags', lambda a: has(a, 'rule.flags()'))]
+                if tool == 'linker':
+                    want += [('global_libs', lambda a: has(a,
+                                                           'global_libs')),
+                             ('tool.lib_flags(mode=global)', lambda a: any(
+                                 ".lib_flags(~, mode='global')" in x
+                                 for x in a)),
+                             ('rule.lib_flags', lambda a: has(
+                                 a, 'rule.lib_flags()'))]
+                sel = "['compile_options']" if tool == 'compiler' else \
+                    "['link_options']"
+                want.append(('gopts-from-registry',
+                             lambda a, sel=sel: has(a, sel)))
+                for nm, pred in want:
+                    if pred(at):
+                        comps[b].add(nm)
         ctx.ob(R, 'tool-keywords|' + mod,
                per.get('make') == per.get('ninja') == per.get('compdb'),
-               gf.node, 'keyword sets passed to the {} call differ: {}'
+               None, 'keyword sets passed to the {} call differ: {}'
                .format(tool, {b: sorted(v) for b, v in per.items()}))
-        # flag components: the same expressions in _get_flags and compdb
-        comps = (['{t}.global_flags', "{t}.flags(gopts, mode='global')",
-                  'rule.flags(gopts)'] if tool == 'compiler' else
-                 ['{t}.global_flags', "{t}.flags(gopts, mode='global')",
-                  'rule.flags(gopts)', '{t}.global_libs',
-                  "{t}.lib_flags(gopts, mode='global')",
-                  'rule.lib_flags(gopts)'])
-        cdh = [h for c, h in reg.handlers['compdb'].items()
-               if h.module.name == mod]
-        Q.require(cdh, 'no compdb handler in ' + mod)
-        for comp in comps:
-            comp = comp.format(t=tool)
-            in_shared = comp in unparse(gf.node)
-            in_cd = all(comp in unparse(h.node) for h in cdh)
-            ctx.ob(R, 'flag-component|{}|{}'.format(mod, comp),
-                   in_shared and in_cd, gf.node,
-                   'flag component {} is used by {}'.format(
-                       comp, 'make/ninja only' if in_shared else
-                       'compdb only' if in_cd else 'nobody'))
-        # global options come from the same registry entry
-        sel = ("build_inputs['compile_options'][compiler.lang]"
-               if tool == 'compiler' else
-               "build_inputs['link_options'][rule.base_mode][linker.family]")
-        ctx.ob(R, 'gopts-source|' + mod, sel in unparse(gf.node) and all(
-            sel in unparse(h.node) for h in cdh), gf.node,
-            'global options are looked up differently in _get_flags and '
-            'compdb')
-        # order: global before per-target in compdb as in the variables
-        for h in cdh:
-            for n in ast.walk(h.node):
-                if isinstance(n, ast.Assign) and unparse(
-                        n.targets[0]) == "cmd_kwargs['flags']":
-                    t = unparse(n.value)
-                    a = t.find(tool + '.global_flags')
-                    b_ = t.find("mode='global'")
-                    c_ = t.find('rule.flags(gopts)')
-                    ctx.ob(R, 'flag-order|' + h.fq, 0 <= a < b_ < c_, n,
-                           'compdb concatenates flags in a different order '
-                           'than global_flags + global options + target '
-                           'options')
+        allc = set().union(*comps.values()) if comps else set()
+        for nm in sorted(allc):
+            ctx.ob(R, 'flag-component|{}|{}'.format(mod, nm),
+                   all(nm in comps.get(b, ()) for b in ('make', 'ninja',
+                                                        'compdb')), None,
+                   'flag component {} is used by {} only'.format(
+                       nm, [b for b in comps if nm in comps[b]]))
+        ctx.ob(R, 'flag-components|found|' + mod, len(allc) >= (
+            4 if tool == 'compiler' else 7), None,
+            'only the flag components {} were recognised'.format(
+                sorted(allc)))
+        # order in compdb: global_flags + global options + target options
+        for c, h in reg.handlers['compdb'].items():
+            if h.module.name != mod:
+                continue
+            for n, v in c07._item_stores(F, h, 'flags'):
+                terms = c03._terms(F, n.value, h)
+                idx = {}
+                for i_, t in enumerate(terms):
+                    a = F.atoms(t, h)
+                    if has(a, 'global_flags') and 'g' not in idx:
+                        idx['g'] = i_
+                    if any("mode='global'" in x for x in a) and \
+                            'o' not in idx:
+                        idx['o'] = i_
+                    if has(a, 'rule.flags()') and 't' not in idx:
+                        idx['t'] = i_
+                ok = len(idx) == 3 and idx['g'] < idx['o'] < idx['t']
+                ctx.ob(R, 'flag-order|' + h.fq, ok, n,
+                       'compdb concatenates flags in a different order '
+                       'than global_flags + global options + target '
+                       'options')
 
-    # transform_input in all three (link, copy)
-    for mod, arg in (('bfg9000.builtins.link', 'rule.files'),
-                     ('bfg9000.builtins.copy_file', 'rule.file')):
+    for mod in ('bfg9000.builtins.link', 'bfg9000.builtins.copy_file'):
         for b in ('make', 'ninja', 'compdb'):
             hs = {h.fq: h for c, h in reg.handlers[b].items()
                   if h.module.name == mod}
             for h in hs.values():
-                ok = any(Q.callee_attr(x) == 'transform_input'
-                         for x in Q.calls(h.node)) and \
-                    "hasattr(" in unparse(h.node)
+                ti = F.calls_to(h, 'transform_input', depth=1)
+                ok = bool(ti) and all(has_call(e.control(), 'hasattr')
+                                      for e in ti)
                 ctx.ob(R, 'transform_input|' + h.fq, ok, h.node,
                        '{} does not apply the tool\'s transform_input'
                        .format(h.qualname))
-    # command steps: same env/command expression
     K = 'bfg9000.builtins.command:'
-    exprs = {}
-    for b, fq in (('make', K + 'make_command'), ('ninja', K + 'ninja_command'),
-                  ('compdb', K + 'compdb_copy_file')):
-        f = repo.func(fq)
-        hit = [x for x in Q.calls(f.node) if Q.callee_attr(x) == 'global_env']
-        ok = len(hit) == 1 and [unparse(a) for a in hit[0].args] == [
-            'rule.env', 'rule.cmds']
+    for b, fq, kw in (('make', K + 'make_command', 'recipe'),
+                      ('ninja', K + 'ninja_command', 'command'),
+                      ('compdb', K + 'compdb_copy_file', 'arguments')):
+        f = F.fn(fq)
+        p = Q.params(f.node)[0]
+        ge = F.calls_to(f, 'global_env', depth=1)
+        ok = bool(ge) and all(has(e.arg(0), p + '.env') and has(
+            e.arg(1), p + '.cmds') for e in ge)
         ctx.ob(R, 'command-env|' + fq, ok, f.node,
                '{} does not run global_env(rule.env, rule.cmds)'.format(fq))
-    G.env_export(ctx, R)
-    # make/ninja `phony` and files
-    fm = repo.func(K + 'make_command')
-    fn_ = repo.func(K + 'ninja_command')
-    okm = any(unparse(Q.kwarg(x, 'phony') or ast.Constant(0)) == 'rule.phony'
-              for x in Q.calls(fm.node))
-    okn = any(unparse(Q.kwarg(x, 'phony') or ast.Constant(0)) == 'rule.phony'
-              for x in Q.calls(fn_.node))
-    ctx.ob(R, 'command-phony', okm and okn, fm.node,
-           'always-outdated flag is not forwarded by both backends')
-    # compile: depfile agreement make/ninja/compdb under the gcc flavor
+        ems = [e for e in F.effects(f, lambda e: Q.kwarg(e.call, kw)
+                                    is not None, depth=0)]
+        ok = bool(ems) and all(
+            {a for a in direct(e.arg(kw=kw, shallow=True))
+             if not a.startswith(('const:', 'alloc:'))} and
+            all('global_env(' in a
+                for a in direct(e.arg(kw=kw, shallow=True))
+                if not a.startswith(('const:', 'alloc:')))
+            for e in ems)
+        ctx.ob(R, 'env-export|' + fq, ok, f.node,
+               '{} does not pass exactly global_env(rule.env, rule.cmds) as '
+               'the command: the step environment is not exported for every '
+               'command of the step'.format(fq.split(':')[1]))
+    for fq in (K + 'make_command', K + 'ninja_command'):
+        f = F.fn(fq)
+        p = Q.params(f.node)[0]
+        ok = any(has(e.arg(kw='phony'), p + '.phony')
+                 for e in F.effects(f, lambda e: Q.kwarg(
+                     e.call, 'phony') is not None, depth=1))
+        ctx.ob(R, 'command-phony|' + fq, ok, f.node,
+               'always-outdated flag is not forwarded')
     Cm = 'bfg9000.builtins.compile:'
     for fq in (Cm + 'make_compile', Cm + 'ninja_compile',
                Cm + 'compdb_compile'):
-        f = repo.func(fq)
-        guarded = False
-        for n in walk_no_nested(f.node):
-            if isinstance(n, ast.If) and "deps_flavor == 'gcc'" in unparse(
-                    n.test):
-                if any("cmd_kwargs['deps']" in unparse(s) for s in n.body):
-                    guarded = True
-        ctx.ob(R, 'deps-kwarg-under-gcc-flavor|' + fq, guarded, f.node,
+        f = F.fn(fq)
+        st = c07._item_stores(F, f, 'deps')
+        ok = any(c07._gcc(F, n, f) for n, v in st)
+        ctx.ob(R, 'deps-kwarg-under-gcc-flavor|' + fq, ok, f.node,
                'the depfile argument is not passed under the gcc deps '
                'flavor')
-    # CompDB keeps every entry: a list, appended unconditionally, dumped whole
-    cdb = repo.cls('bfg9000.backends.compdb.writer:CompDB')
-    init = cdb.methods['__init__']
-    ok = any(isinstance(n, ast.Assign) and unparse(n.targets[0]) ==
-             'self._commands' and isinstance(n.value, ast.List)
-             for n in ast.walk(init))
-    ctx.ob(R, 'CompDB|commands-is-a-list', ok, init,
+    CD = 'bfg9000.backends.compdb.writer:'
+    init = F.fn(CD + 'CompDB.__init__')
+    ok = any(has(t, 'self._commands') and isinstance(n, ast.Assign) and (
+        isinstance(n.value, ast.List) or isinstance(n.value, ast.Call) and
+        unparse(n.value.func) == 'list') for t, v, n in F.stores(init))
+    ctx.ob(R, 'CompDB|commands-is-a-list', ok, init.node,
            'compile_commands entries are not kept in a list (entries with '
            'the same key would replace each other)')
-    ap = cdb.methods['append']
-    from ..cfg import EXIT, build as build_cfg
-    g = build_cfg(ap)
-    adds = [g.stmt_of(c) for c in Q.calls(ap, nested=False)
-            if unparse(c) == 'self._commands.append(entry)']
-    ok = len(adds) == 1 and g.must_pass(adds, EXIT)
-    ctx.ob(R, 'CompDB.append|every-entry-kept', ok, ap,
+    ap = F.fn(CD + 'CompDB.append')
+    ok = F.must(ap, lambda e: e.name == 'append' and has(
+        e.recv(), 'self._commands'))
+    ctx.ob(R, 'CompDB.append|every-entry-kept', ok, ap.node,
            'an entry can be dropped or replace an earlier one')
-    wr = cdb.methods['write']
-    ok = any(unparse(c).startswith('json.dump(self._commands,')
-             for c in Q.calls(wr))
-    ctx.ob(R, 'CompDB.write|dumps-all', ok, wr, '')
-    # compdb writes one entry per handled edge, others skipped silently
-    w = repo.func('bfg9000.backends.compdb.writer:write')
-    ok = 'if type(e) in _rule_handlers' in unparse(w.node) and \
-        'build_inputs.edges()' in unparse(w.node)
+    wr = F.fn(CD + 'CompDB.write')
+    ok = any(has(e.arg(0), 'self._commands') and not has_call(
+        e.arg(0), 'if') for e in F.calls_to(wr, 'dump', depth=1))
+    ctx.ob(R, 'CompDB.write|dumps-all', ok, wr.node,
+           'not every entry is written')
+    w = F.fn(CD + 'write')
+    hc = [e for e in F.effects(w, lambda e: True, depth=0)
+          if has(e.heads(), '_rule_handlers')]
+    ok = bool(hc) and all(has(e.arg(0), 'build_inputs.edges()')
+                          for e in hc)
     ctx.ob(R, 'compdb.write|visits-all-edges', ok, w.node,
            'compdb.write does not visit every edge')
 
 
-def _dep_roots(h):
-    ro = G.Roots(h.node)
-    out = set()
+def _old_roots(h):
+    ro = G.Roots(h.node, Q.params(h.node)[0])
+    al, cl = set(), set()
     for c, k in G.emission_calls(h.node):
         if k not in G.DEP_ARGS:
             continue
         (o, op), deps, oos = G.DEP_ARGS[k]
         for nm, pos in deps:
-            out |= ro.clean(G.call_arg(c, nm, pos))
+            al |= ro.of(G.call_arg(c, nm, pos))
+            cl |= ro.clean(G.call_arg(c, nm, pos))
+    return al, cl
+
+
+def _dep_roots(F, h):
+    out = set()
+    p = Q.params(h.node)[0]
+    for e, k in c03._emissions(F, h):
+        (o, op), deps, oos = G.DEP_ARGS[k]
+        for nm, pos in deps:
+            out |= c03._rule_roots(e.arg(pos, kw=nm), p)
     return out
 
 
